@@ -934,10 +934,10 @@ Lemma pealign_fast_valid sc gap la lb shift fc delta :
   (1 <= la)%nat -> (1 <= lb)%nat -> 0 <= delta ->
   - Z.of_nat lb < shift < Z.of_nat la ->
   (fc = 0 \/ (fc + 3 <= Z.of_nat la /\ fc + 3 <= Z.of_nat lb)) ->
-  exists isl s p, pealign_fast sc gap la lb shift fc delta = Some (isl, s, p) /\
+  exists isl s p, pealign_fast_with sc gap la lb shift fc delta = Some (isl, s, p) /\
                   consumed p = (la, lb) /\ path_score sc gap la lb isl p = s.
 Proof.
-  intros Ha Hb Hd Hs Hf. unfold pealign_fast. cbv zeta.
+  intros Ha Hb Hd Hs Hf. unfold pealign_fast_with. cbv zeta.
   destruct ((shift >? 0) || ((shift =? 0) && (Z.of_nat la <? Z.of_nat lb))) eqn:SA.
   - (* B starts inside A: left alignment *)
     assert (Hs0 : 0 <= shift).
